@@ -21,13 +21,46 @@ pub open spec fn count_where(p: Seq<bool>, t: Seq<bool>, pv: bool, tv: bool) -> 
     if p.len() == 0 || t.len() != p.len() { 0 }
     else { count_where(p.drop_last(), t.drop_last(), pv, tv) + if p.last() == pv && t.last() == tv { 1nat } else { 0nat } }
 }
-/// metrics::_count_tp_fp_fn is one `zip().fold()` with a tuple-pattern closure (not expressible in Verus): assumed
-#[verifier::external_body]
+fn vt_min(a: usize, b: usize) -> (r: usize) ensures r == if a <= b { a } else { b } { if a <= b { a } else { b } }
+proof fn lemma_count_bound(p: Seq<bool>, t: Seq<bool>)
+    requires p.len() == t.len(),
+    ensures count_where(p, t, true, true) + count_where(p, t, true, false) + count_where(p, t, false, true) <= p.len(),
+    decreases p.len()
+{
+    if p.len() > 0 { lemma_count_bound(p.drop_last(), t.drop_last()); }
+}
+
+//@unit src/metrics.rs fn _count_tp_fp_fn
+//@rule R20((usize, usize, usize))
 fn _count_tp_fp_fn(a: &[bool], b: &[bool]) -> (r: (usize, usize, usize))
     requires a.len() == b.len(),
     ensures r.0 == count_where(a@, b@, true, true), r.1 == count_where(a@, b@, true, false), r.2 == count_where(a@, b@, false, true),
         r.0 + r.1 + r.2 <= a.len(),   // the three counts are over disjoint positions
-{ unimplemented!() }
+{
+    proof { lemma_count_bound(a@, b@); }
+    { let mut vt_acc: (usize, usize, usize) = (0, 0, 0); for vt_i in 0..vt_min(a.len(), b.len())
+        invariant
+            a.len() == b.len(),
+            vt_acc.0 == count_where(a@.subrange(0, vt_i as int), b@.subrange(0, vt_i as int), true, true),
+            vt_acc.1 == count_where(a@.subrange(0, vt_i as int), b@.subrange(0, vt_i as int), true, false),
+            vt_acc.2 == count_where(a@.subrange(0, vt_i as int), b@.subrange(0, vt_i as int), false, true),
+            vt_acc.0 + vt_acc.1 + vt_acc.2 <= vt_i,
+    { let (tp, fp, fn_) = vt_acc; let (p, t) = (a[vt_i], b[vt_i]);
+        proof {
+            let (a1, b1) = (a@.subrange(0, vt_i as int + 1), b@.subrange(0, vt_i as int + 1));
+            assert(a1.drop_last() =~= a@.subrange(0, vt_i as int) && b1.drop_last() =~= b@.subrange(0, vt_i as int));
+            assert(a1.last() == p && b1.last() == t);
+        }
+        vt_acc = match (p, t) {
+            (true, true) => (tp + 1, fp, fn_),
+            (true, false) => (tp, fp + 1, fn_),
+            (false, true) => (tp, fp, fn_ + 1),
+            _ => (tp, fp, fn_),
+        }; }
+        proof { assert(a@.subrange(0, a.len() as int) =~= a@ && b@.subrange(0, b.len() as int) =~= b@); }
+        vt_acc }
+}
+//@end
 
 // ---------------------------------------------------------------- F-beta formula (floats as uninterpreted total functions)
 /// `x as f64`, `x.powi(n)` (R9_cast): values are uninterpreted here
@@ -100,5 +133,94 @@ pub fn binary_f1(predictions: &[bool], targets: &[bool], beta: f64) -> (res: VtR
     Ok(_f1(tp, fp, fn_, beta))
 }
 //@end
+
+// ---------------------------------------------------------------- micro averaging
+//@unit src/metrics.rs enum F1Info
+//@rule derive_only(Debug)
+#[derive(Debug)]
+pub enum F1Info {
+    Empty,
+    WhitespaceCorrectionInfo(
+        (
+            WhitespaceCorrections,
+            WhitespaceCorrections,
+            WhitespaceCorrections,
+        ),
+    ),
+    SpellingCorrectionInfo((Vec<usize>, Vec<usize>, Vec<usize>)),
+}
+//@end
+#[derive(Debug)]
+pub enum Operation { Keep, Insert, Delete }     // whitespace::Operation (only carried inside F1Info here)
+//@unit src/metrics.rs type WhitespaceCorrections
+pub type WhitespaceCorrections = Vec<(usize, Operation)>;
+//@end
+//@unit src/metrics.rs struct TpFpFn
+pub struct TpFpFn {
+    values: Vec<(bool, usize, usize, usize, F1Info)>,
+}
+//@end
+pub open spec fn sum_field(v: Seq<(bool, usize, usize, usize, F1Info)>, k: int, which: int) -> int
+    decreases k
+{
+    if k <= 0 || k > v.len() { 0 } else {
+        sum_field(v, k - 1, which) + (if which == 0 { v[k - 1].1 } else if which == 1 { v[k - 1].2 } else { v[k - 1].3 }) as int
+    }
+}
+impl TpFpFn {
+    pub closed spec fn vals(&self) -> Seq<(bool, usize, usize, usize, F1Info)> { self.values@ }
+//@unit src/metrics.rs fn micro_f1
+//@rule R20((usize, usize, usize))
+    fn micro_f1(self, beta: f64) -> (r: (F1PrecRec, Vec<F1Info>))
+        requires
+            // domain: the summed counts fit usize
+            sum_field(self.vals(), self.vals().len() as int, 0) + sum_field(self.vals(), self.vals().len() as int, 1) + sum_field(self.vals(), self.vals().len() as int, 2) <= usize::MAX,
+        ensures
+            // micro averaging: the F-beta of the SUMMED counts
+            f1_ok(r.0, sum_field(self.vals(), self.vals().len() as int, 0), sum_field(self.vals(), self.vals().len() as int, 1),
+                  sum_field(self.vals(), self.vals().len() as int, 2), beta),
+            r.1.len() == self.vals().len(),
+    {
+        let mut infos = Vec::with_capacity(self.values.len());
+        let ghost vs = self.values@;
+        let ghost n = vs.len() as int;
+        let ghost mut done: int = 0;
+        let mut vt_acc: (usize, usize, usize) = (0, 0, 0);
+        proof { lemma_sum_nonneg(vs, n, 0); lemma_sum_nonneg(vs, n, 1); lemma_sum_nonneg(vs, n, 2); }
+        for (_, tp, fp, fn_, info) in it: self.values
+            invariant
+                done == it.index@, 0 <= done <= n, it.seq() == vs, n == vs.len(),
+                sum_field(vs, n, 0) + sum_field(vs, n, 1) + sum_field(vs, n, 2) <= usize::MAX,
+                vt_acc.0 == sum_field(vs, done, 0), vt_acc.1 == sum_field(vs, done, 1), vt_acc.2 == sum_field(vs, done, 2),
+                infos.len() == done,
+        {
+            proof {
+                lemma_sum_mono(vs, done + 1, n, 0); lemma_sum_mono(vs, done + 1, n, 1); lemma_sum_mono(vs, done + 1, n, 2);
+                lemma_sum_nonneg(vs, done + 1, 0); lemma_sum_nonneg(vs, done + 1, 1); lemma_sum_nonneg(vs, done + 1, 2);
+            }
+            let (tps, fps, fns) = vt_acc;
+            infos.push(info);
+            vt_acc = (tps + tp, fps + fp, fns + fn_);
+            proof { done = done + 1; }
+        }
+        let (tps, fps, fns) = vt_acc;
+        (_f1(tps, fps, fns, beta), infos)
+    }
+//@end
+}
+proof fn lemma_sum_mono(v: Seq<(bool, usize, usize, usize, F1Info)>, a: int, b: int, which: int)
+    requires 0 <= a <= b <= v.len(),
+    ensures sum_field(v, a, which) <= sum_field(v, b, which),
+    decreases b - a
+{
+    if a < b { lemma_sum_mono(v, a, b - 1, which); }
+}
+proof fn lemma_sum_nonneg(v: Seq<(bool, usize, usize, usize, F1Info)>, k: int, which: int)
+    requires 0 <= k <= v.len(),
+    ensures sum_field(v, k, which) >= 0,
+    decreases k
+{
+    if k > 0 { lemma_sum_nonneg(v, k - 1, which); }
+}
 } // verus!
 fn main() {}
